@@ -147,6 +147,7 @@ def connect_race(k: int, ei: int, db_exists: bool, sc_exists: bool) -> bool:
 
 
 STATEMENTS = [
+    "merge into t1 using t2 on t1.a = t2.a when matched then delete when not matched then insert (a) values (t2.a)",
     "insert into t1 (a) values (1)",
     "create table tnew (a int)",
     "create table if not exists other (a int)",
@@ -157,12 +158,14 @@ STATEMENTS = [
     "describe table t1",
     "show tables",
 ]
-ST_EFFECTS = ["create_table", "drop_t2", "create_schema_snew", "none"]
+ST_EFFECTS = ["create_table", "drop_other", "create_schema_snew", "none", "other_session_merge", "other_session_temp_table"]
 
 
 def _stmt_race(si: int, k: int, ei: int) -> bool:
     eng = std_engine()
-    conn = instance(eng).connect(database="db1", schema="s1")
+    fs = instance(eng)
+    conn = fs.connect(database="db1", schema="s1")
+    other = fs.connect(database="db1", schema="s1")
     seen = {"n": 0, "hit": False}
     effect = ST_EFFECTS[ei]
 
@@ -171,8 +174,19 @@ def _stmt_race(si: int, k: int, ei: int) -> bool:
             seen["hit"] = True
             if effect == "create_table":
                 eng.dbs["DB1"]["schemas"]["S1"].setdefault("OTHER", __import__("vf.duckstub", fromlist=["Tbl"]).Tbl([("A", "BIGINT")]))
-            elif effect == "drop_t2":
-                eng.dbs["DB1"]["schemas"]["S1"].pop("T2", None)
+            elif effect == "drop_other":
+                eng.dbs["DB1"]["schemas"]["S2"].pop("T1", None)
+            elif effect in ("other_session_merge", "other_session_temp_table"):
+                # a whole statement of ANOTHER fakesnow session (same database and schema) commits here
+                hooks, eng.hooks = eng.hooks, []
+                try:
+                    oc = other.cursor()
+                    if effect == "other_session_merge":
+                        oc.execute("merge into t2 using t1 on t2.a = t1.a when matched then update set a = t1.a")
+                    else:
+                        oc.execute("create or replace temporary table merge_candidates (z int)")
+                finally:
+                    eng.hooks = hooks
             elif effect == "create_schema_snew":
                 eng.dbs["DB1"]["schemas"].setdefault("SNEW", {})
         seen["n"] += 1
@@ -185,6 +199,14 @@ def _stmt_race(si: int, k: int, ei: int) -> bool:
         return False  # none of these statements can fail in any serial order with these effects
     if not seen["hit"]:
         return True
+    # helper objects a multi-step statement creates for itself are never another session's (nor visible to it)
+    me = conn._duck_conn
+    for name, obj in me.read_objs:
+        if name == "MERGE_CANDIDATES" and obj.owner != me.id:
+            return False
+    for name, obj in other._duck_conn.read_objs:
+        if name == "MERGE_CANDIDATES" and obj.owner != other._duck_conn.id:
+            return False
     # the session context never moves because of another session's commit
     want = ("DB1", "S2") if STATEMENTS[si].startswith("use schema") else ("DB1", "S1")
     return (conn.database, conn.schema) == want and conn._duck_conn.setting == want
@@ -193,15 +215,16 @@ def _stmt_race(si: int, k: int, ei: int) -> bool:
 @ob(
     "C19.statement_under_one_interference",
     encodes=["fakesnow.cursor.FakeSnowflakeCursor.execute/_execute"],
-    bounds="9 statements whose outcome does not depend on the other session's effect (DML, DDL with IF [NOT] EXISTS, query, USE, DESCRIBE, SHOW) x ONE "
-    "effect of another session (create a table, drop an unrelated table, create a schema, nothing) committed right before engine call k = 0..4: the "
-    "statement succeeds and the session context is its own",
+    bounds="10 statements whose outcome does not depend on the other session's effect (MERGE, DML, DDL with IF [NOT] EXISTS, query, USE, DESCRIBE, "
+    "SHOW) x ONE effect of another session on the same database and schema (create a table, drop an unrelated table, create a schema, a whole MERGE, "
+    "a temporary table named like MERGE's helper, nothing) committed right before engine call k = 0..7: the statement succeeds, the session context "
+    "is its own, and every helper object a multi-step statement reads was created by its own session",
     timeout=(300, 600),
     stubs=["K2 vf.duckstub.Engine with an interference hook"],
 )
 def stmt_race(si: int, k: int, ei: int) -> bool:
     """
-    pre: 0 <= si < len(STATEMENTS) and 0 <= k <= 4 and 0 <= ei < len(ST_EFFECTS)
+    pre: 0 <= si < len(STATEMENTS) and 0 <= k <= 7 and 0 <= ei < len(ST_EFFECTS)
     post: _
     """
-    return done(fast.native(_stmt_race, fast.pick(si, len(STATEMENTS)), fast.pick(k, 5), fast.pick(ei, len(ST_EFFECTS))))
+    return done(fast.native(_stmt_race, fast.pick(si, len(STATEMENTS)), fast.pick(k, 8), fast.pick(ei, len(ST_EFFECTS))))
